@@ -42,6 +42,9 @@ pub enum Mutation {
     /// replace the payload of frame `sel` by a well-formed zstd frame header that declares this
     /// decompressed size (single segment, one empty last block) and set the compressed flag
     ZstdHeader(u16, u64),
+    /// append `kib` KiB of bytes (themselves a run of well-formed one-byte frames) to the payload of compressed
+    /// frame `sel`, behind the end of its compressed stream, and enlarge its length prefix accordingly
+    PadCompressed(u16, u8),
 }
 
 #[derive(Clone, Debug, Serialize, Deserialize)]
@@ -104,6 +107,7 @@ pub fn strategy() -> BoxedStrategy<Case> {
                 3 => (any::<u16>(), 1u8..=255).prop_map(|(s, v)| Mutation::Corrupt(s, v)),
                 2 => (any::<u16>(), small_bytes(9)).prop_map(|(s, b)| Mutation::Insert(s, b)),
                 1 => any::<u16>().prop_map(Mutation::Dup),
+                1 => (any::<u16>(), prop_oneof![Just(1u8), Just(31u8), Just(33u8), 34u8..=100]).prop_map(|(s, k)| Mutation::PadCompressed(s, k)),
                 1 => (any::<u16>(), prop_oneof![Just(1u64 << 62), Just(u64::MAX - 2), Just(1u64 << 40), Just(1u64 << 33), Just(5u64), Just(0u64), any::<u64>()]).prop_map(|(s, d)| Mutation::ZstdHeader(s, d)),
             ];
             let trailers = if response {
@@ -111,7 +115,7 @@ pub fn strategy() -> BoxedStrategy<Case> {
                     3 => Just(Trailers::None),
                     3 => Just(Trailers::Ok),
                     2 => (1i32..=16, gen::unicode_string(8)).prop_map(|(c, m)| Trailers::Err(c, m)),
-                    1 => prop_oneof![Just("abc"), Just("99"), Just(""), Just("-1"), Just("01")].prop_map(|s| Trailers::Malformed(crate::infra::blob::hex(s.as_bytes()))),
+                    1 => prop_oneof![Just("abc"), Just("99"), Just(""), Just("-1"), Just("01"), Just("17"), Just("18"), Just("19"), Just("20"), Just("100"), Just("1e1"), Just("+1"), Just(" 1")].prop_map(|s| Trailers::Malformed(crate::infra::blob::hex(s.as_bytes()))),
                     1 => Just(Trailers::NoStatus),
                 ]
                 .boxed()
@@ -182,6 +186,18 @@ pub fn build_bytes(c: &Case) -> Vec<u8> {
                 z.extend_from_slice(&[0x01, 0x00, 0x00]);
                 frames[i] = wire::frame(1, &z);
             }
+            Mutation::PadCompressed(s, kib) if !frames.is_empty() => {
+                let i = gen::pick(*s, frames.len());
+                if frames[i][0] == 1 {
+                    let unit = [0u8, 0, 0, 0, 1, b'A'];
+                    let n = (*kib as usize * 1024).div_ceil(unit.len());
+                    for _ in 0..n {
+                        frames[i].extend_from_slice(&unit);
+                    }
+                    let l = (frames[i].len() - 5) as u32;
+                    frames[i][1..5].copy_from_slice(&l.to_be_bytes());
+                }
+            }
             Mutation::Dup(s) if !frames.is_empty() => {
                 let i = gen::pick(*s, frames.len());
                 let f = frames[i].clone();
@@ -227,34 +243,36 @@ enum RefStop {
     Truncated,
     /// the frame at this index is invalid: an error is required
     Invalid(&'static str),
-    /// a compressed payload the independent decompressor rejects: tonic may error or may yield
-    MaybeInvalid,
 }
 
-fn reference(bytes: &[u8], enc: Option<Enc>, prost: bool, pristine: &[(Vec<u8>, Vec<u8>)]) -> (Vec<RefItem>, RefStop) {
+/// Reference parse. The third value is the index of the first frame whose compressed payload has no known
+/// decompression (not byte-identical to one the generator compressed): there tonic may fail or may yield a
+/// message of unknown content; the framing of everything behind it is still known.
+fn reference(bytes: &[u8], enc: Option<Enc>, prost: bool, pristine: &[(Vec<u8>, Vec<u8>)]) -> (Vec<RefItem>, RefStop, Option<usize>) {
     let mut items = vec![];
     let mut off = 0usize;
+    let mut uncertain: Option<usize> = None;
     loop {
         let rest = &bytes[off..];
         if rest.is_empty() {
-            return (items, RefStop::CleanEnd);
+            return (items, RefStop::CleanEnd, uncertain);
         }
         if rest.len() < 5 {
-            return (items, RefStop::Truncated);
+            return (items, RefStop::Truncated, uncertain);
         }
         let flag = rest[0];
         if flag >= 2 {
-            return (items, RefStop::Invalid("flag"));
+            return (items, RefStop::Invalid("flag"), uncertain);
         }
         if flag == 1 && enc.is_none() {
-            return (items, RefStop::Invalid("compressed-flag-without-encoding"));
+            return (items, RefStop::Invalid("compressed-flag-without-encoding"), uncertain);
         }
         let len = u32::from_be_bytes([rest[1], rest[2], rest[3], rest[4]]) as usize;
         if len > DEFAULT_LIMIT {
-            return (items, RefStop::Invalid("over-limit"));
+            return (items, RefStop::Invalid("over-limit"), uncertain);
         }
         if rest.len() - 5 < len {
-            return (items, RefStop::Truncated);
+            return (items, RefStop::Truncated, uncertain);
         }
         let payload = &rest[5..5 + len];
         let plain: Option<Vec<u8>> = if flag == 1 {
@@ -266,13 +284,14 @@ fn reference(bytes: &[u8], enc: Option<Enc>, prost: bool, pristine: &[(Vec<u8>, 
         };
         match plain {
             None => {
-                // decompressors may legitimately differ on garbage: accept an error here or a message,
-                // and stop comparing contents from here on
-                return (items, RefStop::MaybeInvalid);
+                // decompressors may legitimately differ on garbage: accept an error here or a message of any
+                // content; the frames behind it are still delimited by the length prefixes
+                uncertain.get_or_insert(items.len());
+                items.push(RefItem::Framed);
             }
             Some(p) => {
                 if prost && Msg::decode(&p[..]).is_err() {
-                    return (items, RefStop::Invalid("undecodable-protobuf"));
+                    return (items, RefStop::Invalid("undecodable-protobuf"), uncertain);
                 }
                 items.push(RefItem::Exact(p));
             }
@@ -347,12 +366,15 @@ pub fn run(c: &Case, o: &mut Outcome) -> Result<(), Failure> {
     let has_trailers = trailers.is_some() && !body_error_injected;
     let body = ScriptBody::new(steps);
     let probe = body.probe.clone();
+    // every DATA frame reaches the decoder as a two-segment Buf (split point derived from the case)
+    let seg = (c.sizes.len() as u8).wrapping_mul(53) ^ (c.buffer_size as u8);
+    let body = crate::infra::script::SegBody::new(body, seg);
     let pristine: Vec<(Vec<u8>, Vec<u8>)> = match c.enc {
         Some(e) if c.raw.is_none() => c.frames.iter().filter(|f| f.compressed).map(|f| (wire::compress(e, &f.payload.bytes()), f.payload.bytes())).collect(),
         _ => vec![],
     };
-    let (ref_items, ref_stop) = reference(&delivered, c.enc, c.prost, &pristine);
-    let malformed = !matches!(ref_stop, RefStop::CleanEnd);
+    let (ref_items, ref_stop, uncertain) = reference(&delivered, c.enc, c.prost, &pristine);
+    let malformed = !matches!(ref_stop, RefStop::CleanEnd) || uncertain.is_some();
     o.nontrivial = malformed || body_error_injected;
     o.label_if(c.raw.is_some(), "raw_bytes");
     o.label_if(body_error_injected, "body_error");
@@ -365,8 +387,10 @@ pub fn run(c: &Case, o: &mut Outcome) -> Result<(), Failure> {
         RefStop::Invalid("compressed-flag-without-encoding") => o.label("ref_flag1_no_encoding"),
         RefStop::Invalid("over-limit") => o.label("ref_over_limit"),
         RefStop::Invalid(_) => o.label("ref_undecodable_protobuf"),
-        RefStop::MaybeInvalid => o.label("ref_corrupt_compressed"),
     }
+    o.label_if(uncertain.is_some(), "ref_corrupt_compressed");
+    o.label_if(uncertain.map(|u| u + 1 < ref_items.len()).unwrap_or(false), "frames_behind_a_corrupt_compressed_frame");
+    o.label_if(c.muts.iter().any(|m| matches!(m, Mutation::PadCompressed(..))) && uncertain.is_some(), "bytes_behind_the_compressed_stream_in_a_frame");
     o.label_if(!ref_items.is_empty() && malformed, "messages_before_failure");
 
     let budget = 64 + 8 * (chunks.len() * 4 + ref_items.len() + 8);
@@ -440,7 +464,7 @@ pub fn run(c: &Case, o: &mut Outcome) -> Result<(), Failure> {
                     }
                 } else {
                     ensure!(
-                        matches!(ref_stop, RefStop::MaybeInvalid),
+                        false,
                         "C07/message-beyond-reference",
                         "stream yielded message {n_items} but the reference parse has only {} well-formed frames (stop: {:?})",
                         ref_items.len(),
@@ -458,7 +482,13 @@ pub fn run(c: &Case, o: &mut Outcome) -> Result<(), Failure> {
         }
     }
     let ft = first_terminal.expect("driver always records a terminal event");
-    if !matches!(ref_stop, RefStop::MaybeInvalid) {
+    if let Some(u) = uncertain {
+        // the stream may stop with an error at any frame of unknown decompression; short of that nothing is lost
+        match &evs[ft] {
+            E::End => ensure!(n_items == ref_items.len(), "C07/messages-lost-before-clean-end", "clean end after {n_items} of {} delimited frames", ref_items.len()),
+            _ => ensure!(n_items >= u, "C07/messages-lost", "{n_items} messages yielded before the error, but the first {u} frames are well-formed"),
+        }
+    } else {
         ensure!(n_items == ref_items.len() || matches!(evs[ft], E::Err(..)) && n_items <= ref_items.len(), "C07/messages-lost", "{} messages yielded, reference has {} complete frames before {:?}", n_items, ref_items.len(), ref_stop);
         // a clean end must not swallow complete frames
         if matches!(evs[ft], E::End) {
@@ -474,7 +504,9 @@ pub fn run(c: &Case, o: &mut Outcome) -> Result<(), Failure> {
     }
 
     // ---- an error is required where the input is definitely malformed
+    let certain = uncertain.is_none();
     match (&ref_stop, &evs[ft]) {
+        (_, E::Err(..)) if !certain => {}
         (RefStop::Invalid(why), E::End) => bail!("C07/malformed-input-ends-cleanly", "invalid frame ({why}) but the stream ended cleanly"),
         (RefStop::Invalid("over-limit"), E::Err(code, _)) => {
             ensure!(*code == Code::OutOfRange || body_error_injected, "C07/over-limit-code", "over-limit frame gave {code:?}")
@@ -490,7 +522,7 @@ pub fn run(c: &Case, o: &mut Outcome) -> Result<(), Failure> {
         _ => {}
     }
     // ---- body errors surface exactly once (Request + CANCELLED may be swallowed as a clean end)
-    if body_error_injected && matches!(ref_stop, RefStop::CleanEnd | RefStop::Truncated) {
+    if body_error_injected && certain && matches!(ref_stop, RefStop::CleanEnd | RefStop::Truncated) {
         let (_, code) = err_at.unwrap();
         match &evs[ft] {
             E::Err(c2, m) => ensure!(*c2 == Code::from_i32(code) && m == "injected body error", "C07/body-error-altered", "body error {code} surfaced as {c2:?} {m:?}"),
@@ -499,7 +531,7 @@ pub fn run(c: &Case, o: &mut Outcome) -> Result<(), Failure> {
         }
     }
     // ---- trailers decide the outcome of a well-formed response body
-    if c.response && has_trailers && matches!(ref_stop, RefStop::CleanEnd) {
+    if c.response && has_trailers && matches!(ref_stop, RefStop::CleanEnd) && (certain || matches!(evs[ft], E::End)) {
         match (&c.trailers, &evs[ft]) {
             (Trailers::Ok | Trailers::NoStatus, E::End) => {}
             (Trailers::Err(code, m), E::Err(c2, m2)) => ensure!(*c2 == Code::from_i32(*code) && m2 == m, "C07/trailer-status-altered", "trailers {code} {m:?} surfaced as {c2:?} {m2:?}"),
@@ -526,7 +558,7 @@ impl Prop for C07 {
     }
     fn assumptions() -> Vec<String> {
         vec![
-            "on compressed payloads the independent decompressor rejects, tonic may either fail or yield a message (decompressors legitimately differ on garbage); only framing is compared there".into(),
+            "on compressed payloads that are not byte-identical to one the generator compressed, tonic may either fail or yield a message of any content (decompressors legitimately differ on garbage); the frames behind such a frame are still compared: nothing but the delimited frames may come out".into(),
             "a request body error with code CANCELLED may surface as a clean end (documented tonic behaviour for client cancellation)".into(),
             "a response whose data is cut off but whose trailers carry a status is judged by those trailers".into(),
         ]
